@@ -127,8 +127,8 @@ static void check_output(const struct VideoFrame* f)
     if (!g_clean) return;
     int k = k_cfg < 2 ? 2 : k_cfg;
     long first = (long)j * k;
-    if (first >= g_nin) { oracle("frame-without-input out=%d inputs=%d k=%d", j, g_nin, k); return; }
-    int cnt = g_nin - first < k ? (int)(g_nin - first) : k;
+    if (first >= g_processed) { oracle("frame-without-input out=%d inputs=%d k=%d", j, g_processed, k); return; }
+    int cnt = g_processed - first < k ? (int)(g_processed - first) : k;
     const struct inrec* a = &g_in[first];
     if (f->frame_id != a->id) oracle("wrong-frame-id out=%d got=%llu want=%llu", j, (unsigned long long)f->frame_id, (unsigned long long)a->id);
     if (f->shape.type != SampleType_f32) oracle("type-not-f32 out=%d got=%d", j, (int)f->shape.type);
@@ -147,8 +147,8 @@ static void check_output(const struct VideoFrame* f)
         int ok = f2u(x[i]) == f2u(want);
         if (cnt < k) ok = ok || f2u(x[i]) == f2u(s); // trailing incomplete window: the property only bounds their number
         if (!ok) {
-            oracle("pixel-not-the-mean out=%d px=%zu got=%08x want=%08x sum=%lld n=%d type=%d", j, i, f2u(x[i]), f2u(want), (long long)sum, cnt,
-                   a->type);
+            oracle("%s out=%d px=%zu got=%08x want=%08x sum=%lld n=%d type=%d", cnt < k ? "trailing-frame-not-the-sums-of-its-window" : "pixel-not-the-mean",
+                   j, i, f2u(x[i]), f2u(want), (long long)sum, cnt, a->type);
             break;
         }
     }
@@ -211,7 +211,7 @@ int main(void)
     signal(SIGALRM, on_alarm);
     while (fgets(line, sizeof line, stdin)) {
         unsigned long a, b, c, d, e;
-        alarm(20);
+        alarm(5);
         if (sscanf(line, "new %lu %lu %lu %lu", &a, &b, &c, &d) == 4) {
             release();
             channel_new(&OUT, c);
@@ -230,7 +230,7 @@ int main(void)
         } else if (!have) {
             printf("bad-op\n");
         } else if (sscanf(line, "w %lu %lu %lu %lu %lu", &a, &b, &c, &d, &e) == 5) {
-            if (g_nin >= MAXIN || finalized) { printf("illformed\n"); continue; }
+            if (g_nin >= MAXIN || finalized || failed) { printf("illformed\n"); continue; }
             int type = (int)e;
             struct ImageShape shape = { .dims = { .channels = 1, .width = (uint32_t)c, .height = (uint32_t)d, .planes = 1 },
                                         .strides = { .channels = 1, .width = 1, .height = (int64_t)c, .planes = (int64_t)(c * d) },
@@ -261,6 +261,7 @@ int main(void)
             if (a) g_clean = 0;
             int ret = 1, calls = 0;
             size_t nbytes_read = 0;
+            g_processed = g_nin;
             do {
                 F.sig_accumulator_reset = 0;
                 ret = process_data(&F, &accumulator, &frame_count, &nbytes_read);
@@ -274,7 +275,6 @@ int main(void)
                 drain();
             }
             if (!ret) { failed = 1; g_clean = 0; }
-            g_processed = g_nin;
             status("P", ret);
             printf("# calls=%d\n", calls);
         } else if (sscanf(line, "accept %lu", &a) == 1) {
@@ -286,8 +286,8 @@ int main(void)
             F.is_stopping = 1;
             F.is_running = 1;
             finalized = 1;
-            int ecode = video_filter_thread(&F);
             g_processed = g_nin;
+            int ecode = video_filter_thread(&F);
             if (F.is_running || F.is_stopping) oracle("thread-exit-flags");
             if (ecode) g_clean = 0;
             drain();
